@@ -719,7 +719,8 @@ def write_evidence(prop, tier, seed, results, wall, codegen_s, nviol, known_line
         "wall_s": round(wall, 1),
         "violations": nviol,
     }
-    path = os.path.join(EVIDENCE_DIR, prop + ".json")
+    # experimental runs never overwrite the evidence of the registered tiers
+    path = os.path.join(EVIDENCE_DIR, prop + (".json" if tier in ("quick", "thorough") else ".experimental.json"))
     tmp = path + ".tmp"
     json.dump(ev, open(tmp, "w"), indent=1)
     os.replace(tmp, path)
